@@ -304,3 +304,22 @@ Theorem body_overrides_tie : Gen_C16.body_overrides =
     "TensorflowPoseBody.frame_dropout_normal" ].
 Proof. exact C16_GenTie.body_overrides_tie. Qed.
 Print Assumptions body_overrides_tie.
+
+(* ---------- class structure of the current source: overrides and attribute hooks (proofs/ClassesTie.v) ---------- *)
+Require Import ClassesTie.
+Theorem C16_tie_class_numpy_body : over_numpy_body = Some exp_over_numpy_body.
+Proof. exact over_numpy_body_tie. Qed.
+Print Assumptions C16_tie_class_numpy_body.
+Theorem C16_tie_class_torch_body : over_torch_body = Some exp_over_torch_body.
+Proof. exact over_torch_body_tie. Qed.
+Print Assumptions C16_tie_class_torch_body.
+Theorem C16_tie_class_tf_body : over_tf_body = Some exp_over_tf_body.
+Proof. exact over_tf_body_tie. Qed.
+Print Assumptions C16_tie_class_tf_body.
+Theorem C16_tie_class_subclasses : subclasses = exp_subclasses.
+Proof. exact subclasses_tie. Qed.
+Print Assumptions C16_tie_class_subclasses.
+Theorem C16_tie_class_attr_hooks : Gen_Classes.attr_hooks = exp_attr_hooks.
+Proof. exact attr_hooks_tie. Qed.
+Print Assumptions C16_tie_class_attr_hooks.
+
